@@ -8,6 +8,7 @@ def kindStr : Kind → String
 
 def parseKind : String → Option Kind
   | "co" => some Kind.co | "fn" => some Kind.fn | "det" => some Kind.det
+  | "detL" => some Kind.det | "detF" => some Kind.det | "detG" => some Kind.det   -- closure size / container spellings
   | "rh" => some Kind.rh | "ra" => some Kind.ra | "aw" => some Kind.aw
   | _ => none
 
@@ -29,6 +30,10 @@ def evStr : Ev → String
   | Ev.flagSet f t => s!"flag-set f{f} t{t}"
   | Ev.unlockB t => s!"s {t} unlock mxB"
   | Ev.cvBlockB t => s!"s {t} cv-block cvB"
+  | Ev.curStopped t r => s!"cur-stopped t{t} {b01 r}"
+  | Ev.curEnq t r => s!"cur-enq t{t} {b01 r}"
+  | Ev.curInline t => s!"cur-inline t{t}"
+  | Ev.crash _ => "crash"
   | Ev.stopBBegin t => s!"stopB-begin t{t}"
   | Ev.stopBEnd t => s!"stopB-end t{t}"
   | Ev.destroyBBegin t => s!"destroyB-begin t{t}"
@@ -52,6 +57,9 @@ def parsePrimList : List Char → List Prim
   | 'D' :: r => Prim.destroy :: parsePrimList r
   | 'r' :: r => Prim.react :: parsePrimList r
   | 'b' :: r => Prim.stopB :: parsePrimList r
+  | 'q' :: r => Prim.curStopped :: parsePrimList r
+  | 'a' :: r => Prim.curEnq :: parsePrimList r
+  | 'c' :: r => Prim.resub :: parsePrimList r
   | 'B' :: r => Prim.destroyB :: parsePrimList r
   | _ :: r => parsePrimList r
 
@@ -61,6 +69,9 @@ def parsePrims (w : String) : List Prim × Bool :=
 def parseOp (w : String) : Option Act :=
   if w == "stop" then some Act.stop
   else if w == "destroy" then some Act.destroy
+  else if w == "curq" then some Act.curStopped
+  else if w == "cura" then some Act.curEnq
+  else if w == "curc" then some Act.resub
   else if w == "stopB" then some Act.stopB
   else if w == "destroyB" then some Act.destroyB
   else
@@ -102,7 +113,7 @@ def runCase (hdr : List String) (body : List (List String)) : List String := Id.
   let nt := nc0 + cls.length
   let cfg : Cfg := { nw := nw, nt := nt, script := fun t => scripts[t - nc0]?.getD [], hasB := hasB,
                      raOwns := !hdr.contains "asis-ra", dtorOutside := !hdr.contains "asis-dtor",
-                     cvYield := hdr.contains "cvy" }
+                     cvYield := hdr.contains "cvy", curNullOk := !hdr.contains "asis-cur" }
   let (s, out, stuck) := runSched cfg (init cfg) sched #[] 100000
   let mut lines := out
   if stuck then
